@@ -172,6 +172,22 @@ def gen_cross(rng, na, ctls):
             ev += ["U%d.1" % x, "r"]
     return ev
 
+def gen_ring(rng, na, ctls, cycles):
+    """learn / unMap over and over: the pending ring (32 slots) wraps, the
+    callback and value vectors keep growing"""
+    ev = []
+    for i in range(cycles):
+        a = rng.randrange(na)
+        c = ctls[i % len(ctls)]
+        k = 1 if rng.random() < 0.8 else 0
+        ev += ["M%d.%d" % (a, k), "r", "r", "C%d.%d.%d.%d" % (c[0], rng.randrange(128), c[1], c[2]), "n", "r",
+               "C%d.%d.%d.%d" % (c[0], rng.randrange(128), c[1], c[2])]
+        if rng.random() < 0.7:
+            ev += ["U%d.%d" % (a, k), "r"]
+        if rng.random() < 0.05:
+            ev += ["X", "r", "r", "r", "r"]
+    return ev
+
 def interleavings(base, ndel):
     """all histories that insert at most ndel deliveries (r/n) into base"""
     k = len(base)
@@ -206,7 +222,7 @@ def pick_ports(rng):
 
 def gen(rng, tier, dist):
     out = []
-    nrand = 500 if tier == "quick" else 12000
+    nrand = 1500 if tier == "quick" else 12000
     for i in range(nrand):
         ports = pick_ports(rng)
         ctls = rand_ctls(rng)
@@ -234,8 +250,13 @@ def gen(rng, tier, dist):
             if fine:
                 ev.append("C6.%d.1.0" % ((v * 37 + i) % 128))
         out.append(mk_case(rng, [p, PORT_POOL[8]], ev, [(5, 1, 0), (6, 1, 0)], dist, "sweep"))
+    # the pending ring wraps after 32 learns
+    for i in range(3 if tier == "quick" else 40):
+        ports = pick_ports(rng)
+        ctls = rand_ctls(rng)
+        out.append(mk_case(rng, ports, gen_ring(rng, len(ports), ctls, rng.randint(34, 70)), ctls, dist, "ring-wrap"))
     # exhaustive delivery orders for short histories
-    nshort = 6 if tier == "quick" else 60
+    nshort = 10 if tier == "quick" else 60
     ndel = 3 if tier == "quick" else 5
     for i in range(nshort):
         ports = pick_ports(rng)[:3]
@@ -453,7 +474,7 @@ RULE = ("histories over 2..4 addresses drawn from a pool of int and float ranges
         "non-representable decimal bounds, a degenerate and a tiny range) and 2..6 controllers (channel/NRPN spellings "
         "mixed, aliases of one id included): fully synchronous histories; histories quiescent at map/unMap/clear with "
         "several learns in flight; random asynchronous interleavings; D19-shaped crossings; 128-value sweeps through a "
-        "coarse(+fine) binding; and every placement of <=3 (quick) / <=5 (thorough) deliveries into short histories. "
+        "coarse(+fine) binding; 34..70 learn/unMap cycles (the 32-slot pending ring wraps); and every placement of <=3 (quick) / <=5 (thorough) deliveries into short histories. "
         "Each history ends with a drain and two values per controller. Non-trivial = Spec holds, >=2 assignments and "
         ">=2 parameter messages.")
 TRUSTED = ["harness/h_C20.cpp: real MidiMappernRT + MidiMapperRT, rt_cb / frontend queued by the harness, nRT->RT messages "
